@@ -1,5 +1,6 @@
 import PhyloModel.Arena.Query
 import PhyloModel.Newick.Writer
+import PhyloModel.Split.Model
 /-! Line-protocol driver: runs the executable definitions of the model, one request per line
     (tab-separated fields), one answer line per request.  See /verif/PROTOCOL.md.
     Unknown or ill-formed requests answer `bad-op`; nothing is ever defaulted. -/
@@ -149,6 +150,7 @@ def nwWrite (f : FM.Fmt) (slots : List (Bool × NW.PNode NW.Label)) : String :=
 /-! ### state and dispatch -/
 structure DState where
   ar : AR.Arena := #[]
+  ar2 : AR.Arena := #[]
 
 def encOut : AR.Out → String
   | .ok none => "ok"
@@ -198,10 +200,37 @@ def arQuery (a : AR.Arena) : List String → Option String
   | ["search", n] => (decOptStr n).map fun n => "ok " ++ encNats (AR.searchName a n)
   | _ => none
 
+def encSide (all : List String) (s : SPM.Side) : String := ",".intercalate ((SPM.namesOf all s).map hexEnc)
+def sortStr (l : List String) : List String := l.mergeSort (fun x y => decide (x ≤ y))
+
+def spQuery (a b : AR.Arena) : List String → Option String
+  | ["parts"] => some (encQR (fun (r : List String × List SPM.Part) => ";".intercalate (sortStr ((SPM.sides r.2).map (encSide r.1))))
+      (do let t ← AR.absRoot a; let all ← SPM.leafIndex t; let ps ← SPM.partitions t; pure (all, ps)))
+  | ["partlens"] => some (encQR (fun (r : List String × List SPM.Part) =>
+      ";".intercalate (sortStr (r.2.map (fun p => encSide r.1 p.side ++ "=" ++ encOptInt p.len))))
+      (do let t ← AR.absRoot a; let all ← SPM.leafIndex t; let ps ← SPM.partitions t; pure (all, ps)))
+  | ["leafindex"] => some (encQR (fun l => ",".intercalate (l.map hexEnc)) (AR.absRoot a >>= SPM.leafIndex))
+  | ["rf"] => some (encQR toString (do let s ← AR.absRoot a; let o ← AR.absRoot b; SPM.rf s o))
+  | ["rfn"] => some (encQR (fun (p : Nat × Nat) => s!"{p.1} {p.2}") (do let s ← AR.absRoot a; let o ← AR.absRoot b; SPM.rfNorm s o))
+  | ["wrf"] => some (encQR toString (do let s ← AR.absRoot a; let o ← AR.absRoot b; SPM.wrf s o))
+  | ["kf2"] => some (encQR toString (do let s ← AR.absRoot a; let o ← AR.absRoot b; SPM.kf2 s o))
+  | ["cmp"] => some (encQR (fun (p : Nat × Nat × Int × Int) => s!"{p.1} {p.2.1} {p.2.2.1} {p.2.2.2}")
+      (do let s ← AR.absRoot a; let o ← AR.absRoot b; SPM.compareTopologies s o))
+  | ["branches", t] =>
+    let e1 (l : List (String × Int)) := ";".intercalate (sortStr (l.map (fun (k, v) => s!"{hexEnc k}={v}")))
+    let e2 (l : List (String × Int × Int)) := ";".intercalate (sortStr (l.map (fun (k, v, w) => s!"{hexEnc k}={v}:{w}")))
+    some (encQR (fun (r : List (String × Int) × List (String × Int) × List (String × Int × Int)) =>
+      s!"{e1 r.1} / {e1 r.2.1} / {e2 r.2.2}")
+      (do let s ← AR.absRoot a; let o ← AR.absRoot b; SPM.compareBranches s o (t == "1")))
+  | _ => none
+
 def dispatch (st : DState) (fs : List String) : DState × String :=
   let bad := (st, "bad-op")
   match fs with
   | ["ar.load", s] => match decArena s with | some a => ({ st with ar := a }, "ok") | none => bad
+  | ["ar.load2", s] => match decArena s with | some a => ({ st with ar2 := a }, "ok") | none => bad
+  | ["ar.swap"] => ({ st with ar := st.ar2, ar2 := st.ar }, "ok")
+  | "sp" :: q => match spQuery st.ar st.ar2 q with | some r => (st, r) | none => bad
   | ["ar.dump"] => (st, encArena st.ar)
   | ["ar.inv"] => (st, s!"{encBool (AR.checkInv st.ar)} {(AR.liveRoots st.ar).length}")
   | ["ar.add", n] => match decOptStr n with
